@@ -1,6 +1,7 @@
 import RtenVerif.Driver.Util
 import RtenVerif.Model.InPlace
 import RtenVerif.Model.InPlaceExec
+import RtenVerif.Model.InPlaceView
 import RtenVerif.Generated.InPlaceOps
 
 namespace RtenVerif.Driver.C13
@@ -73,14 +74,24 @@ def handleExec (op : String) (ws : List String) : String :=
     -- a value fed to both operands has reference count 2 (and the ownership of operand a)
     let ownA := own.startsWith "1"
     let ownB := if isSame then ownA else own.endsWith "1"
+    -- result value through the executor model (operators with an i32 value model)
+    let value : String :=
+      match binFn op, (field "ad" ws).bind parseInts, (field "bd" ws).bind parseInts with
+      | some f, some ad, some bd =>
+        let A : Tens Int := ⟨a, ad⟩
+        let B : Tens Int := ⟨b, if isSame then ad else bd⟩
+        match graphExec f ips comm A B ownA ownB isSame with
+        | some t => s!" shape={showShape t.shape} data={showData t.data}"
+        | none => " err"
+      | _, _, _ => ""
     match broadcastShapes a b with
-    | none => "reuse=na"
+    | none => "reuse=na" ++ value
     | some s =>
-      if numel s == 0 then "reuse=na"
+      if numel s == 0 then "reuse=na" ++ value
       else match graphReuse ips comm a b ownA ownB isSame with
-        | some 0 => "reuse=a"
-        | some _ => "reuse=b"
-        | none => "reuse=none"
+        | some 0 => "reuse=a" ++ value
+        | some _ => "reuse=b" ++ value
+        | none => "reuse=none" ++ value
   | _, _, _, _ => "bad-request"
 
 def parseDim (w : String) : Option (Nat × Nat) :=
@@ -100,6 +111,34 @@ def handleCc (ws : List String) : String :=
     | none => "bad-request"
   | _, _, _, _ => "bad-request"
 
+open RtenVerif.Layout in
+def parseView (w : String) : Option View :=
+  match w.splitOn "@" with
+  | [b, ds] => do
+    let base ← b.toNat?
+    let dims ← if ds == "-" then some [] else (ds.splitOn ",").mapM parseDim
+    pure ⟨base, 0, dims⟩
+  | _ => none
+
+open RtenVerif.Layout in
+/-- `vip <op> a=<view> b=<view>`: `run_in_place` on a view-based owned operand. -/
+def handleVip (op : String) (ws : List String) : String :=
+  match binFn op, (field "a" ws).bind parseView, (field "b" ws).bind parseView with
+  | some f, some a, some b =>
+    let sa : Nat → Int := fun i => (i : Int) + 1
+    let sb : Nat → Int := fun i => 100 * ((i : Int) + 1)
+    let sha := sizes a.dims
+    let shb := sizes b.dims
+    if canRunInPlace sha shb then
+      let t := tensOf a (binaryOpInPlaceView f a sa b sb)
+      let ip := if t.data.isEmpty then "-" else "1"
+      s!"ip={ip} shape={showShape t.shape} data={showData t.data}"
+    else
+      match binaryOp f a sa b sb with
+      | some t => s!"ip={if t.data.isEmpty then "-" else "0"} shape={showShape t.shape} data={showData t.data}"
+      | none => "err"
+  | _, _, _ => "bad-request"
+
 def handleCov (ws : List String) : String :=
   let names := match ws with
     | [w] => w.splitOn ","
@@ -114,6 +153,7 @@ def handle (line : String) : String :=
   | "lay" :: op :: ws => handleLay op ws
   | "exec" :: op :: ws => handleExec op ws
   | "cc" :: ws => handleCc ws
+  | "vip" :: op :: ws => handleVip op ws
   | "cov" :: ws => handleCov ws
   | _ => "skip"
 
